@@ -1,10 +1,275 @@
-import Irc.Inv
-import Irc.Lemmas.Frame
+/-
+  C02 — "At any moment at most one connection is registered under a given nickname, and that nickname
+  belongs to the connection whose registration or NICK change the server accepted for it.  Whatever a
+  connection sends and however it ends, it can speak as, rename, modify or remove only the user it
+  registered itself; a connection whose registration was refused (nickname in use, wrong password,
+  mask mismatch) or never completed has no effect on any registered user."
+
+  All theorems are stated for every world satisfying the global invariant (`InvCore` where the
+  settling clauses are not needed, `Inv` otherwise); reachable worlds satisfy it (`Reachable` section).
+  Helper lemmas: Irc/Props/InvPropsLemmas.lean.
+-/
+import Irc.Props.InvPropsLemmas
+
 namespace Irc.C02
 open Irc
 
-/-- first obligation (the full theorem list of this property is added as the
-    invariant-preservation proofs land): the initial world has no users. -/
+/-! ### vocabulary -/
+
+/-- `cn` is a live connection that is registered under the nickname `n` -/
+def RegisteredAs (w : World) (cn : Conn) (n : Str) : Prop :=
+  cn ∈ w.conns ∧ cn.authenticated = true ∧ cn.nick = some n
+
+instance (w : World) (cn : Conn) (n : Str) : Decidable (RegisteredAs w cn n) := by
+  unfold RegisteredAs; infer_instance
+
+/-- the initial world has no users -/
 theorem init_no_users (cfg : Cfg) : (World.init cfg).users = [] := rfl
+
+/-! ### one nickname, one owner -/
+
+/-- at most one connection is registered under a given nickname -/
+theorem at_most_one_owner {w : World} (h : InvCore w) {n : Str} {a b : Conn}
+    (ha : RegisteredAs w a n) (hb : RegisteredAs w b n) : a = b :=
+  IP.owner_unique h ha.1 ha.2.1 ha.2.2 hb.1 hb.2.1 hb.2.2
+
+/-- every registered nickname has exactly one owner: the live connection whose id is recorded in the
+    user entry (`owner`, written when the registration / NICK change was accepted) -/
+theorem one_owner {w : World} (h : InvCore w) {n : Str} {u : User}
+    (hu : Map.lookup n w.users = some u) :
+    ∃ cn, RegisteredAs w cn n ∧ cn.id = u.owner ∧ ∀ cn', RegisteredAs w cn' n → cn' = cn := by
+  obtain ⟨cn, hm, hid, ha, hn⟩ := h.userOwned n u hu
+  exact ⟨cn, ⟨hm, ha, hn⟩, hid, fun cn' h' => at_most_one_owner h h' ⟨hm, ha, hn⟩⟩
+
+/-- conversely a registered connection has a user entry under its nick, and owns it -/
+theorem auth_conn_has_user {w : World} (h : InvCore w) {cn : Conn} (hm : cn ∈ w.conns)
+    (ha : cn.authenticated = true) :
+    ∃ n u, cn.nick = some n ∧ Map.lookup n w.users = some u ∧ u.owner = cn.id ∧ RegisteredAs w cn n := by
+  obtain ⟨n, u, hn, hu, ho⟩ := h.authOwns cn hm ha
+  exact ⟨n, u, hn, hu, ho, hm, ha, hn⟩
+
+/-- a connection that is not registered owns nobody: no user entry carries its id -/
+theorem unregistered_owns_nobody {w : World} (h : InvCore w) {cn : Conn} (hm : cn ∈ w.conns)
+    (ha : cn.authenticated = false) {n : Str} {u : User} (hu : Map.lookup n w.users = some u) :
+    u.owner ≠ cn.id := Reg.no_user_of_unauth h hm ha hu
+
+/-! ### a connection that has not registered -/
+
+/-- the only two things a line of an unregistered connection `c` can do to the user table -/
+inductive UnregOutcome (c : Nat) (x y : Ctx) : Prop
+  /-- still unregistered, user table untouched -/
+  | nothing (hu : (y.conn c).authenticated = false) (he : y.w.users = x.w.users)
+  /-- registration completed: exactly one new entry, under the connection's own nick, which was free,
+      owned by `c` and in no channel -/
+  | registered (nick : Str) (u : User) (hfree : Map.lookup nick x.w.users = none) (ho : u.owner = c)
+      (hch : u.channels = []) (he : y.w.users = Map.insert nick u x.w.users)
+      (ha : (y.conn c).authenticated = true) (hn : (y.conn c).nick = some nick)
+
+/-- Whatever line (any text at all) an unregistered live connection sends:
+    * either it is still unregistered and the user table is unchanged, or it has just registered and
+      the table grew by exactly its own entry under a nick that was free;
+    * the channels are untouched;
+    * every user registered before is still registered with a literally identical record. -/
+theorem unregistered_no_effect_line {cfg : Cfg} {c : Nat} {s : Str} {x : Ctx}
+    (h : InvCore x.w) (hl : Live x.w c) (hu : (x.conn c).authenticated = false) :
+    UnregOutcome c x (handleLine cfg c s x) ∧
+    (handleLine cfg c s x).w.channels = x.w.channels ∧
+    ∀ n u, Map.lookup n x.w.users = some u → Map.lookup n (handleLine cfg c s x).w.users = some u := by
+  have r := IP.handleLine_unreg_regEffect (cfg := cfg) (s := s) h hl hu
+  refine ⟨?_, r.1, fun n u hn => r.lookup_preserved hn⟩
+  rcases r.2 with ⟨he, ha⟩ | ⟨nick, u, hfree, ho, hch, he, ha, hn⟩
+  · exact .nothing ha he
+  · exact .registered nick u hfree ho hch he ha hn
+
+/-- a registration attempt that is refused or incomplete (the connection is still unregistered
+    afterwards) changes nothing in the user table -/
+theorem refused_registration_no_effect {cfg : Cfg} {c : Nat} {s : Str} {x : Ctx}
+    (h : InvCore x.w) (hl : Live x.w c) (hu : (x.conn c).authenticated = false)
+    (hr : ((handleLine cfg c s x).conn c).authenticated = false) :
+    (handleLine cfg c s x).w.users = x.w.users ∧ (handleLine cfg c s x).w.channels = x.w.channels := by
+  have r := IP.handleLine_unreg_regEffect (cfg := cfg) (s := s) h hl hu
+  exact ⟨r.users_eq_of_unauth hr, r.1⟩
+
+/-- the same for the whole operation (handler and settling phase, in which a connection refused for a
+    wrong password is closed): in a world satisfying the invariant, a line of an unregistered
+    connection leaves the user table unchanged or adds exactly the connection's own new entry; the
+    channels are untouched and every registered user keeps its record -/
+theorem unregistered_no_effect_step {cfg : Cfg} {w : World} (h : Inv w) {cn : Conn} (hm : cn ∈ w.conns)
+    (ha : cn.authenticated = false) (s : Str) :
+    ((step cfg w (.line cn.id s)).w.users = w.users ∨
+      ∃ nick u, Map.lookup nick w.users = none ∧ u.owner = cn.id ∧ u.channels = [] ∧
+        (step cfg w (.line cn.id s)).w.users = Map.insert nick u w.users) ∧
+    (step cfg w (.line cn.id s)).w.channels = w.channels ∧
+    ∀ n u, Map.lookup n w.users = some u → Map.lookup n (step cfg w (.line cn.id s)).w.users = some u := by
+  obtain ⟨e1, e2, _⟩ := IP.step_unreg_line (cfg := cfg) h hm ha s
+  have hl : Live w cn.id := ⟨cn, hm, rfl⟩
+  have hc : Ctx.conn { w := w } cn.id = cn := Reg.Ctx.conn_of_conn? (IP.conn?_mem h.toInvCore hm)
+  have r := IP.handleLine_unreg_regEffect (cfg := cfg) (s := s) (x := { w := w }) h.toInvCore hl
+    (by rw [hc]; exact ha)
+  rw [e1, e2]
+  refine ⟨?_, r.1, fun n u hn => r.lookup_preserved hn⟩
+  rcases r.2 with ⟨he, _⟩ | ⟨nick, u, hfree, ho, hch, he, _, _⟩
+  · exact Or.inl he
+  · exact Or.inr ⟨nick, u, hfree, ho, hch, he⟩
+
+/-- closing a connection that never registered (or whose registration was refused, even if it had
+    asked for the nick of a registered user) removes nobody and changes no user, channel or counter -/
+theorem unregistered_teardown_no_effect {w : World} (h : InvCore w) {cn : Conn} (hm : cn ∈ w.conns)
+    (ha : cn.authenticated = false) :
+    (teardown w cn.id).users = w.users ∧ (teardown w cn.id).channels = w.channels ∧
+    (teardown w cn.id).wallops = w.wallops ∧ (teardown w cn.id).invisibleCount = w.invisibleCount ∧
+    (teardown w cn.id).operatorsCount = w.operatorsCount ∧ (teardown w cn.id).histories = w.histories ∧
+    (teardown w cn.id).conns = w.conns.filter (·.id != cn.id) := by
+  obtain ⟨a, b, c, d, e, _, f, _, _, _, g, _⟩ := teardown_unauthenticated_noop h hm ha
+  exact ⟨a, b, c, d, e, f, g⟩
+
+/-- however an unregistered connection ends (EOF, reset, undecodable or over-long input, or its own
+    QUIT), the registered users, channels, WALLOPS audience and WHOWAS records are untouched -/
+theorem unregistered_end_no_effect {cfg : Cfg} {w : World} (h : Inv w) {cn : Conn} (hm : cn ∈ w.conns)
+    (ha : cn.authenticated = false) {e : Event}
+    (he : IP.EndsItself cn.id e) :
+    (step cfg w e).w.users = w.users ∧ (step cfg w e).w.channels = w.channels ∧
+    (step cfg w e).w.wallops = w.wallops ∧ (step cfg w e).w.histories = w.histories ∧
+    (step cfg w e).w.conns = w.conns.filter (·.id != cn.id) := by
+  obtain ⟨a, b, c, _, _, f, g⟩ := unregistered_teardown_no_effect h.toInvCore hm ha
+  have q := IP.step_self_end (cfg := cfg) h hm he
+  exact ⟨q.users.trans a, q.channels.trans b, q.wallops.trans c, q.histories.trans f, q.conns.trans g⟩
+
+/-! ### a registered connection acts only on its own user -/
+
+/-- NICK of a registered connection: the user table changes at most at the old and the new nick;
+    the entry that moves is the connection's own (same `owner`), and the new nick was free -/
+theorem registered_nick_only_renames_self {cfg : Cfg} {c : Nat} {nick : Str} {msg : Message} {x : Ctx}
+    (h : InvCore x.w) (hl : Live x.w c) (ha : (x.conn c).authenticated = true) :
+    ∃ old user, (x.conn c).nick = some old ∧ Map.lookup old x.w.users = some user ∧ user.owner = c ∧
+      (∀ n, n ≠ old → n ≠ nick →
+        Map.lookup n (processNick cfg c nick msg x).w.users = Map.lookup n x.w.users) ∧
+      ((processNick cfg c nick msg x).w.users = x.w.users ∨
+       (nick ≠ old ∧ Map.lookup nick x.w.users = none ∧
+        Map.lookup old (processNick cfg c nick msg x).w.users = none ∧
+        ∃ user', Map.lookup nick (processNick cfg c nick msg x).w.users = some user' ∧
+          user'.owner = c ∧ user' = { user with source := user'.source })) := by
+  obtain ⟨old, user, hn, hu, ho, hcase⟩ := registered_nick_users (cfg := cfg) (nick := nick) (msg := msg) h hl ha
+  refine ⟨old, user, hn, hu, ho, registered_nick_only_own_key h hl ha hn, ?_⟩
+  rcases hcase with e | ⟨hne, hfree, e⟩
+  · exact Or.inl e
+  · refine Or.inr ⟨hne, hfree, ?_, { user with source := ((x.conn c).setNick nick).source }, ?_, ho, rfl⟩
+    · rw [e, Map.lookup_insert_ne _ _ _ _ hne, Map.lookup_erase_eq]
+    · rw [e, Map.lookup_insert_eq]
+
+/-- a nick that is in use is never taken over: NICK to a registered nickname (other than the own one)
+    leaves the user table as it is -/
+theorem nick_in_use_refused {cfg : Cfg} {c : Nat} {nick : Str} {msg : Message} {x : Ctx}
+    (h : InvCore x.w) (hl : Live x.w c) {u : User} (hu : Map.lookup nick x.w.users = some u) :
+    (processNick cfg c nick msg x).w.users = x.w.users := by
+  cases ha : (x.conn c).authenticated with
+  | true =>
+    obtain ⟨old, user, _, _, _, hcase⟩ :=
+      registered_nick_users (cfg := cfg) (nick := nick) (msg := msg) h hl ha
+    rcases hcase with e | ⟨_, hfree, _⟩
+    · exact e
+    · rw [hu] at hfree; cases hfree
+  | false =>
+    have hc : Map.contains nick x.w.users = true := (Map.contains_iff _ _).mpr ⟨u, hu⟩
+    unfold processNick
+    simp only [ha, Bool.not_false, ↓reduceIte, hc, Bool.not_true, Bool.false_eq_true, Ctx.reply_w]
+
+/-- closing any live connection removes at most the user that connection registered itself: every
+    user entry under a nick the connection is not registered as is literally unchanged -/
+theorem teardown_removes_only_own {w : World} (h : InvCore w) {cn : Conn} (hm : cn ∈ w.conns)
+    {m : Str} (hne : ¬ RegisteredAs w cn m) :
+    Map.lookup m (teardown w cn.id).users = Map.lookup m w.users :=
+  IP.teardown_lookup_other h hm (fun ⟨ha, hn⟩ => hne ⟨hm, ha, hn⟩)
+
+/-- the same at `step` level, for every way a connection can end by itself -/
+theorem ending_removes_only_own {cfg : Cfg} {w : World} (h : Inv w) {cn : Conn} (hm : cn ∈ w.conns)
+    {e : Event} (he : IP.EndsItself cn.id e)
+    {m : Str} (hne : ¬ RegisteredAs w cn m) :
+    Map.lookup m (step cfg w e).w.users = Map.lookup m w.users := by
+  rw [(IP.step_self_end (cfg := cfg) h hm he).users]
+  exact teardown_removes_only_own h.toInvCore hm hne
+
+/-! ### non-vacuity (`Tear.exWorld`: user `a`, owned by the authenticated connection 1; connection 2
+    is unauthenticated although its record says nick `a` — the refused-433 situation) -/
+
+open Tear in
+example : Inv exWorld ∧ RegisteredAs exWorld exConn1 (str "a") ∧ ¬ RegisteredAs exWorld exConn2 (str "a") :=
+  ⟨exWorld_inv, by decide, by decide⟩
+open Tear in
+example : ∃ cn, RegisteredAs exWorld cn (str "a") ∧ cn.id = 1 :=
+  let ⟨cn, h1, h2, _⟩ := one_owner exWorld_invCore (n := str "a") (u := exUser) rfl
+  ⟨cn, h1, h2⟩
+-- an unregistered connection: NICK to the nick in use, PASS, an unknown command, garbage: no effect
+open Tear in
+example : Live exWorld 2 ∧ (Ctx.conn { w := exWorld } 2).authenticated = false := ⟨⟨exConn2, by decide, rfl⟩, by decide⟩
+open Tear in
+example : (handleLine {} 2 (str "NICK a") { w := exWorld }).w.users = exWorld.users ∧
+    (handleLine {} 2 (str "USER a 0 * :r") { w := exWorld }).w.users = exWorld.users ∧
+    (handleLine {} 2 (str "JOIN #a") { w := exWorld }).w.users = exWorld.users ∧
+    (handleLine {} 2 (str ":::") { w := exWorld }).w.users = exWorld.users := by decide
+-- the whole operation, including the settling phase that closes a connection with a wrong password
+open Tear in
+example : (step { password := some (str "pw") } exWorld (.line 2 (str "PASS bad"))).w.users = exWorld.users ∧
+    (step { password := some (str "pw") } exWorld (.line 2 (str "PASS bad"))).w.conns.map (·.id) = [1, 2] := by
+  decide
+open Tear in
+example :
+    let w1 := (step { password := some (str "pw") } exWorld (.line 2 (str "NICK b"))).w
+    let w2 := (step { password := some (str "pw") } w1 (.line 2 (str "PASS bad"))).w
+    let w3 := (step { password := some (str "pw") } w2 (.line 2 (str "USER b 0 * :r"))).w
+    w3.users = exWorld.users ∧ w3.conns = [exConn1] := by decide
+-- ... and a registration that completes adds exactly the own entry
+open Tear in
+example : Map.keys (handleLine {} 2 (str "USER b 0 * :r")
+      (handleLine {} 2 (str "NICK b") { w := exWorld })).w.users = [str "a", str "b"] ∧
+    Map.lookup (str "a") (handleLine {} 2 (str "USER b 0 * :r")
+      (handleLine {} 2 (str "NICK b") { w := exWorld })).w.users = Map.lookup (str "a") exWorld.users := by
+  decide
+-- the D3 situation: closing connection 2 (record says nick `a`, not authenticated) keeps user `a`
+open Tear in
+example : (step {} exWorld (.eof 2)).w.users = exWorld.users ∧ (step {} exWorld (.eof 2)).w.conns = [exConn1] ∧
+    (step {} exWorld (.line 2 (str "QUIT"))).w.users = exWorld.users := by decide
+example : IP.IsQuitLine (str "QUIT") ∧ IP.IsQuitLine (str "QUIT :bye") :=
+  ⟨⟨⟨none, str "QUIT", []⟩, by decide, by decide⟩, ⟨⟨none, str "QUIT", [str "bye"]⟩, by decide, by decide⟩⟩
+-- closing connection 1 does remove its own user
+open Tear in
+example : (step {} exWorld (.eof 1)).w.users = [] := by decide
+-- NICK of the registered connection 1: only its own entry moves
+example : (Reg.exX4.conn 1).authenticated = true ∧ Map.keys Reg.exX4.w.users = [str "a", str "c"] ∧
+    Map.keys (processNick {} 1 (str "b") (Reg.exMsg "b") Reg.exX4).w.users = [str "c", str "b"] ∧
+    (processNick {} 1 (str "c") (Reg.exMsg "c") Reg.exX4).w.users = Reg.exX4.w.users := by decide
+
+/-! ### reachable worlds -/
+section Reachable
+
+theorem reachable_one_owner {cfg : Cfg} {evs : List Event} (hs : SchedAll cfg evs) {n : Str} {u : User}
+    (hu : Map.lookup n (run cfg evs).users = some u) :
+    ∃ cn, RegisteredAs (run cfg evs) cn n ∧ cn.id = u.owner ∧
+      ∀ cn', RegisteredAs (run cfg evs) cn' n → cn' = cn :=
+  one_owner (inv_run hs).toInvCore hu
+
+theorem reachable_at_most_one_owner {cfg : Cfg} {evs : List Event} (hs : SchedAll cfg evs) {n : Str}
+    {a b : Conn} (ha : RegisteredAs (run cfg evs) a n) (hb : RegisteredAs (run cfg evs) b n) : a = b :=
+  at_most_one_owner (inv_run hs).toInvCore ha hb
+
+/-- in a reachable state, a line of an unregistered connection keeps every registered user -/
+theorem reachable_unregistered_no_effect_line {cfg : Cfg} {evs : List Event} (hs : SchedAll cfg evs)
+    {c : Nat} {s : Str} (hl : Live (run cfg evs) c)
+    (hu : (Ctx.conn { w := run cfg evs } c).authenticated = false) :
+    UnregOutcome c { w := run cfg evs } (handleLine cfg c s { w := run cfg evs }) ∧
+    ∀ n u, Map.lookup n (run cfg evs).users = some u →
+      Map.lookup n (handleLine cfg c s { w := run cfg evs }).w.users = some u :=
+  let r := unregistered_no_effect_line (cfg := cfg) (s := s) (x := { w := run cfg evs })
+    (inv_run hs).toInvCore hl hu
+  ⟨r.1, r.2.2⟩
+
+theorem reachable_ending_removes_only_own {cfg : Cfg} {evs : List Event} (hs : SchedAll cfg evs)
+    {cn : Conn} (hm : cn ∈ (run cfg evs).conns) {e : Event}
+    (he : IP.EndsItself cn.id e)
+    {m : Str} (hne : ¬ RegisteredAs (run cfg evs) cn m) :
+    Map.lookup m (step cfg (run cfg evs) e).w.users = Map.lookup m (run cfg evs).users :=
+  ending_removes_only_own (inv_run hs) hm he hne
+
+end Reachable
 
 end Irc.C02
